@@ -42,14 +42,16 @@ Init == S = Empty /\ sched = <<>> /\ grant0 = Empty /\ todo = <<>> /\ started = 
 
 OkReqs(S0) == { r \in R : One(S0, r).res = "ok" }
 
+PickOk(S0, ok, two) ==
+    UNION { { IF two <= 25 /\ ok2 # {} THEN [a |-> "Exec", reqs |-> <<r1, RandomElement(ok2)>>] ELSE [a |-> "Exec", reqs |-> <<r1>>]
+              : ok2 \in { IF two <= 25 THEN OkReqs(One(S0, r1).S) ELSE {} } }
+            : r1 \in { RandomElement(ok) } }
+
 PickAct(S0) ==
-    { IF roll <= OK_PCT /\ ok # {}
-      THEN (IF two <= 25 /\ OkReqs(One(S0, r1).S) # {}
-            THEN [a |-> "Exec", reqs |-> <<r1, RandomElement(OkReqs(One(S0, r1).S))>>]
-            ELSE [a |-> "Exec", reqs |-> <<r1>>])
-      ELSE (IF two <= 15 THEN [a |-> "Exec", reqs |-> <<rr, RandomElement(R)>>] ELSE [a |-> "Exec", reqs |-> <<rr>>])
-      : roll \in {RandomElement(1..100)}, two \in {RandomElement(1..100)}, ok \in {OkReqs(S0)},
-        r1 \in { IF OkReqs(S0) # {} THEN RandomElement(OkReqs(S0)) ELSE RandomElement(R) }, rr \in {RandomElement(R)} }
+    UNION { IF roll <= OK_PCT /\ ok # {}
+            THEN PickOk(S0, ok, two)
+            ELSE { IF two <= 15 THEN [a |-> "Exec", reqs |-> <<rr, RandomElement(R)>>] ELSE [a |-> "Exec", reqs |-> <<rr>>] }
+            : roll \in {RandomElement(1..100)}, two \in {RandomElement(1..100)}, ok \in {OkReqs(S0)}, rr \in {RandomElement(R)} }
 
 Next ==
     IF ~started
